@@ -174,20 +174,11 @@ func runC12(w *World) {
 		tie := false
 		// avoid an amnesia tie: corebgp measures the 300 s between the instants its peer
 		// manager handled the two errors, and a slow Logger delays each of them
-		if tLast >= 0 {
-			lead := time.Duration(0)
-			if kind == 5 {
-				lead = time.Duration(hold) * time.Second // the event is the expiry of the hold timer
-			}
-			lo, hi := -10*time.Millisecond-2*logMax, 10*time.Millisecond+(w.LogSlept-sleptLast)+logMax
-			if g := w.Now() + lead - tLast - 300*time.Second; g > lo && g < hi {
-				if hi-g < 500*time.Millisecond {
-					w.Sleep(hi - g + 10*time.Millisecond)
-				} else {
-					// too long to sit out with a connection open: the outcome of this
-					// event is not judged and the history ends with it
-					tie = true
-				}
+		// (without a Logger the tie zone is stepped out of; with one it is detected
+		// once the instant of the event is known, see below)
+		if tLast >= 0 && logMax == 0 {
+			if g := w.Now() - tLast - 300*time.Second; g > -10*time.Millisecond && g < 10*time.Millisecond {
+				w.Sleep(20 * time.Millisecond)
 			}
 		}
 		damp := true
@@ -287,6 +278,16 @@ func runC12(w *World) {
 				damp = false
 			} else {
 				t, seqT = nf.At, nf.Seq
+			}
+		}
+		if damp && tLast >= 0 {
+			// corebgp's clock for the 300 s runs from when its manager handled the previous
+			// error (up to l1 after tLast) to when it handles this one (up to l2 after t):
+			// the model's verdict can differ from corebgp's iff -l2 <= g < l1
+			l1 := (slept0 - sleptLast) + logMax
+			l2 := (w.LogSlept - slept0) + logMax
+			if g := t - tLast - 300*time.Second; g >= -l2-10*time.Millisecond && g < l1+10*time.Millisecond {
+				tie = true // not judged; the history ends with this event
 			}
 		}
 		// (a0) the FSM that sent or received the NOTIFICATION never dials again: whatever
